@@ -1,32 +1,41 @@
-#!/venv/bin/python
+#!/usr/bin/python3
 """Development aid: apply each seeded / candidate mutant to a scratch worktree and run the checks with --root.
-usage: tools/try_mutants.py [pattern]   (patches: /verif/seeded/*/patch.diff and /tmp/wt/*.diff)"""
-import glob, os, subprocess, sys, re, json
+usage: tools/try_mutants.py [pattern] [props]   (patches: /verif/seeded/*/patch.diff and /tmp/wt/*.diff)"""
+import glob, os, subprocess, sys, json
+from concurrent.futures import ThreadPoolExecutor
 pat = sys.argv[1] if len(sys.argv) > 1 else ''
 props = sys.argv[2].split(',') if len(sys.argv) > 2 else None
 WT = '/tmp/wt/_try'
 if not os.path.isdir(WT):
     subprocess.run(['git', '-C', '/repo', 'worktree', 'add', '-q', '--detach', WT, 'HEAD'], check=True)
-subprocess.run(['git', '-C', WT, 'checkout', '-q', '--detach', subprocess.run(['git', '-C', '/repo', 'rev-parse', 'HEAD'], capture_output=True, text=True).stdout.strip()], check=True)
+head = subprocess.run(['git', '-C', '/repo', 'rev-parse', 'HEAD'], capture_output=True, text=True).stdout.strip()
+subprocess.run(['git', '-C', WT, 'checkout', '-q', '--', '.'], check=True)
+subprocess.run(['git', '-C', WT, 'checkout', '-q', '--detach', head], check=True)
 diffs = sorted(glob.glob('/verif/seeded/*/patch.diff') + glob.glob('/tmp/wt/*.diff'))
 man = json.load(open('/verif/MANIFEST.json'))
 claimed = [c['property_id'] for c in man['checks']]
+seen = set()
+
+
+def run(pid):
+    p = subprocess.run(['/venv/bin/python', '/verif/sa/check.py', '--property', pid, '--root', WT], capture_output=True, text=True,
+                       env=dict(os.environ, VERIF_NO_EVIDENCE='1'))
+    return pid, p.returncode
+
+
 for d in diffs:
     name = os.path.basename(os.path.dirname(d)) if d.endswith('patch.diff') else os.path.basename(d)[:-5]
-    if pat and pat not in name:
+    if (pat and pat not in name) or name in seen:
         continue
+    seen.add(name)
     subprocess.run(['git', '-C', WT, 'checkout', '-q', '--', '.'], check=True)
     r = subprocess.run(['git', '-C', WT, 'apply', d], capture_output=True, text=True)
     if r.returncode:
         print(f'{name}: PATCH DOES NOT APPLY: {r.stderr.strip()[:100]}')
         continue
-    res = {}
-    for pid in (props or claimed):
-        p = subprocess.run(['/venv/bin/python', '/verif/sa/check.py', '--property', pid, '--root', WT], capture_output=True, text=True,
-                           env=dict(os.environ, VERIF_NO_EVIDENCE='1'))
-        if p.returncode:
-            res[pid] = p.returncode
+    with ThreadPoolExecutor(16) as ex:
+        res = {k: v for k, v in ex.map(run, props or claimed) if v}
     target = name[:3]
     print(f"{name}: target={target} " + ('DETECTED(target) ' if res.get(target) == 1 else 'unresolved(target) ' if res.get(target) == 2 else 'MISSED(target) ')
-          + ' '.join(f'{k}:rc{v}' for k, v in sorted(res.items())))
+          + ' '.join(f'{k}:rc{v}' for k, v in sorted(res.items())), flush=True)
 subprocess.run(['git', '-C', WT, 'checkout', '-q', '--', '.'], check=True)
